@@ -4,5 +4,5 @@ Import ListNotations.
 From XV Require Import C20.Spec20 C20.Model20.
 Local Open Scope N_scope.
 
-Example ex_smoke : xi_docproc [] false false [[1]] [Elem 0 [97] [] []] = (D_ok [Elem 0 [97] [] []], []).
+Example ex_smoke : xi_docproc [] true true false [[1]] [Elem 0 [97] [] []] = (D_ok [Elem 0 [97] [] []], []).
 Proof. vm_compute. reflexivity. Qed.
